@@ -1,10 +1,237 @@
-//! C12 — not built yet.
-use crate::ev::Ctx;
-pub fn run(_ctx: &Ctx) -> i32 {
-    println!("INCONCLUSIVE property=C12 check not built yet");
-    2
+//! C12 — I/O faults and partial I/O are handled faithfully by the library.
+//!
+//! Fault enumeration: for every corpus input that translates without faults,
+//! the reader fails (and keeps failing) after k bytes for EVERY k in 0..=len,
+//! the writer fails after accepting k bytes for EVERY k below the fault-free
+//! output length (two styles), writers accept only short pieces, and flush
+//! fails. Oracles: Err (never Ok, never panic), reader error text preserved,
+//! accepted bytes a prefix of the fault-free output.
+
+use serde_json::{json, Value};
+
+use crate::corpus::valid_stream;
+use crate::ev::{self, Acc, Ctx, Finish, Violation};
+use crate::fmts::{self, Fmt, ALL};
+use crate::gen::{Classes, GenOpts};
+use crate::model::{hex, preview, unhex};
+use crate::mon::{FaultStyle, MonWriter, Sched, SchedReader, FLUSH_MARK, READ_MARK};
+use crate::rng::Rng;
+use crate::run::{guarded, is_prefix, run_slice, Verdict};
+use crate::spell::Feats;
+
+fn case_json(kind: &str, input: &[u8], from: Option<Fmt>, to: Fmt, k: usize, extra: &str) -> Value {
+    json!({"fault": kind, "input_hex": hex(input), "input_preview": preview(input, 200), "from": fmts::from_name(from), "to": to.name(), "k": k, "detail": extra})
 }
-pub fn replay(_case: &serde_json::Value) -> i32 {
-    println!("replay not built yet");
-    2
+
+fn yaml_prefix_ok(out: &[u8], clean: &[u8]) -> bool {
+    if is_prefix(out, clean) {
+        return true;
+    }
+    // the YAML writer emits the '---' header before it asks the source for the
+    // document, so a fault between documents can leave one trailing header
+    if let Some(stripped) = out.strip_suffix(b"---\n") {
+        return is_prefix(stripped, clean);
+    }
+    false
+}
+
+pub fn reader_fault(input: &[u8], from: Option<Fmt>, to: Fmt, k: usize, sched: &Sched, clean: &[u8], acc: &mut Acc) {
+    acc.evals += 1;
+    acc.count("reader_fault_points");
+    let mut out = Vec::new();
+    // the kind of the injected error rotates: some kinds are what the format
+    // trials use to mean "not this format"
+    let kinds = [std::io::ErrorKind::Other, std::io::ErrorKind::UnexpectedEof, std::io::ErrorKind::InvalidData, std::io::ErrorKind::BrokenPipe];
+    let kind = kinds[(k / 3) % 4];
+    acc.count(&format!("reader_fault_kind_{kind:?}"));
+    let r = SchedReader::new(input, sched.clone()).with_fault(k).with_fault_kind(kind);
+    let log = r.log_handle();
+    let v = guarded(|| xt::translate_reader(r, from.map(Fmt::xt), to.xt(), &mut out));
+    let faults = log.borrow().faults_returned;
+    if faults == 0 {
+        // xt finished without ever reading at/after offset k: no fault was injected
+        acc.count("reader_fault_not_reached");
+        if !v.is_ok() || out != clean {
+            acc.violation(Violation { sig: format!("{}->{} run without injected fault differs from the fault-free run", fmts::from_name(from), to.name()), case: case_json("reader", input, from, to, k, &sched.describe()), observed: format!("{} [{}]", v.show(), preview(&out, 120)), expected: "the fault-free outcome".into() });
+        }
+        return;
+    }
+    acc.count("reader_faults_delivered");
+    let prefix_ok = if to == Fmt::Yaml { yaml_prefix_ok(&out, clean) } else { is_prefix(&out, clean) };
+    let problem = match &v {
+        Verdict::Ok => Some("returned Ok although the reader failed".to_string()),
+        Verdict::Panic(p) => Some(format!("panicked: {p}")),
+        Verdict::Err(e) if !e.contains(READ_MARK) => Some(format!("error text lost the reader's error: Err({e})")),
+        Verdict::Err(_) if !prefix_ok => Some(format!("bytes written are not a prefix of the fault-free output: [{}] vs [{}]", preview(&out, 160), preview(clean, 160))),
+        Verdict::Err(e) => {
+            acc.count(&format!("reader_fault_error_{}", classify_err(e)));
+            None
+        }
+    };
+    if let Some(p) = problem {
+        acc.violation(Violation { sig: format!("reader fault {}->{}: {}", fmts::from_name(from), to.name(), ev::truncate(&crate::c02_mask(&p), 70)), case: case_json("reader", input, from, to, k, &sched.describe()), observed: p, expected: format!("Err containing '{READ_MARK}', output a prefix of the fault-free output") });
+    }
+}
+
+fn classify_err(e: &str) -> &'static str {
+    if e.starts_with(READ_MARK) {
+        "bare_io_text"
+    } else if e.contains("translation failed") {
+        "mentions_translation_failed"
+    } else {
+        "wrapped"
+    }
+}
+
+pub fn writer_fault(input: &[u8], from: Option<Fmt>, to: Fmt, k: usize, style: FaultStyle, reader: Option<&Sched>, clean: &[u8], acc: &mut Acc) {
+    acc.evals += 1;
+    acc.count("writer_fault_points");
+    let w = MonWriter::new().with_fault(k, style);
+    let wlog = w.log_handle();
+    let v = match reader {
+        None => guarded(|| xt::translate_slice(input, from.map(Fmt::xt), to.xt(), w)),
+        Some(s) => guarded(|| xt::translate_reader(SchedReader::new(input, s.clone()), from.map(Fmt::xt), to.xt(), w)),
+    };
+    let log = wlog.borrow();
+    if log.faults_returned == 0 {
+        acc.count("writer_fault_not_reached");
+        if !v.is_ok() || log.bytes != clean {
+            acc.violation(Violation { sig: "run without injected write fault differs from the fault-free run".into(), case: case_json("writer", input, from, to, k, &format!("{style:?}")), observed: format!("{} [{}]", v.show(), preview(&log.bytes, 120)), expected: "the fault-free outcome".into() });
+        }
+        return;
+    }
+    let problem = match &v {
+        Verdict::Ok => Some("returned Ok although the writer failed".to_string()),
+        Verdict::Panic(p) => Some(format!("panicked: {p}")),
+        Verdict::Err(_) if !is_prefix(&log.bytes, clean) => Some(format!("accepted bytes are not a prefix of the fault-free output: [{}] vs [{}]", preview(&log.bytes, 160), preview(clean, 160))),
+        Verdict::Err(_) => None,
+    };
+    acc.max("max_writes_after_fault", log.writes_after_fault);
+    if let Some(p) = problem {
+        acc.violation(Violation { sig: format!("writer fault {}->{}: {}", fmts::from_name(from), to.name(), ev::truncate(&crate::c02_mask(&p), 70)), case: case_json("writer", input, from, to, k, &format!("{style:?}|{}", reader.map(|s| s.describe()).unwrap_or_else(|| "slice".into()))), observed: p, expected: "Err, accepted bytes a prefix of the fault-free output".into() });
+    }
+}
+
+pub fn short_writes(input: &[u8], from: Option<Fmt>, to: Fmt, seed: u64, max: usize, clean: &[u8], acc: &mut Acc) {
+    acc.evals += 1;
+    acc.count("short_write_runs");
+    let w = MonWriter::new().with_short(seed, max);
+    let wlog = w.log_handle();
+    let v = guarded(|| xt::translate_slice(input, from.map(Fmt::xt), to.xt(), w));
+    let log = wlog.borrow();
+    if !v.is_ok() || log.bytes != clean {
+        acc.violation(Violation { sig: format!("short writes {}->{}", fmts::from_name(from), to.name()), case: case_json("short", input, from, to, max, &seed.to_string()), observed: format!("{} [{}]", v.show(), preview(&log.bytes, 160)), expected: format!("Ok and exactly the fault-free output [{}]", preview(clean, 160)) });
+    }
+}
+
+pub fn flush_fault(to: Fmt, acc: &mut Acc) {
+    acc.evals += 1;
+    acc.count("flush_fault_runs");
+    let w = MonWriter::new().with_failing_flush();
+    let mut tr = xt::Translator::new(w, to.xt());
+    let _ = tr.translate_slice(b"{\"a\":1}", Some(xt::Format::Json));
+    match tr.flush() {
+        Err(e) if e.to_string().contains(FLUSH_MARK) => {}
+        other => acc.violation(Violation { sig: format!("flush to={}", to.name()), case: json!({"fault": "flush", "to": to.name()}), observed: format!("{other:?}"), expected: "the writer's flush error".into() }),
+    }
+    let ok = MonWriter::new();
+    let h = ok.log_handle();
+    let mut tr = xt::Translator::new(ok, to.xt());
+    if tr.flush().is_err() || h.borrow().flush_calls == 0 {
+        acc.violation(Violation { sig: format!("flush not forwarded to={}", to.name()), case: json!({"fault": "flush-forward", "to": to.name()}), observed: format!("flush calls seen by the writer: {}", h.borrow().flush_calls), expected: "flush forwarded to the writer".into() });
+    }
+}
+
+pub fn run(ctx: &Ctx) -> i32 {
+    let n = ctx.size(900, 40000);
+    let seed = ctx.seed;
+    let acc = crate::par::run(n, 2, |i, acc| {
+        let mut rng = Rng::derive(seed, 0xc12, i as u64);
+        let mut cl = Classes::default();
+        let mut feats = Feats::default();
+        let f = ALL[i % 4];
+        let n_docs = *rng.pick(&[1usize, 1, 2, 3]);
+        let o = GenOpts { max_depth: 3, max_width: 3, ..GenOpts::common() };
+        let (input, _) = valid_stream(f, n_docs, &mut rng, &mut feats, &mut cl, &o);
+        if input.len() > 2048 && !(i % 50 == 0) {
+            // large inputs: kept only as a stratified sample
+            acc.count("large_input_skipped");
+            return;
+        }
+        let to = ALL[(i / 4) % 4];
+        for from in [Some(f), None] {
+            let clean = run_slice(&input, from, to);
+            if !clean.verdict.is_ok() {
+                acc.count("fault_free_run_fails_skipped");
+                continue;
+            }
+            acc.distinct(&(input.clone(), fmts::from_name(from), to.name()));
+            acc.sample_every(4001, || json!({"input_preview": preview(&input, 120), "from": fmts::from_name(from), "to": to.name(), "bytes": input.len(), "output_bytes": clean.out.len()}));
+            // reader faults at every offset (sampled for large inputs)
+            let step = if input.len() > 2048 { input.len() / 64 } else { 1 };
+            let scheds = [Sched::All, Sched::One, Sched::Random(rng.next(), 8)];
+            let mut k = 0;
+            while k <= input.len() {
+                reader_fault(&input, from, to, k, &scheds[k % 3], &clean.out, acc);
+                k += step;
+            }
+            reader_fault(&input, from, to, input.len(), &Sched::All, &clean.out, acc);
+            // writer faults at every offset of the output
+            let wstep = if clean.out.len() > 2048 { clean.out.len() / 64 } else { 1 };
+            let mut k = 0;
+            while k < clean.out.len() {
+                let style = if k % 2 == 0 { FaultStyle::ShortThenFail } else { FaultStyle::RejectCrossing };
+                let reader = if k % 3 == 0 { Some(&scheds[1]) } else { None };
+                writer_fault(&input, from, to, k, style, reader, &clean.out, acc);
+                k += wstep;
+            }
+            for m in [1usize, 2, 3, 7] {
+                short_writes(&input, from, to, rng.next(), m, &clean.out, acc);
+            }
+        }
+        if i < 8 {
+            flush_fault(ALL[i % 4], acc);
+        }
+    });
+    let rule = format!("{} generated valid inputs (1-3 documents, each format in turn, <= 2 KiB plus a stratified sample above) x [explicit, detected] x rotating target, restricted to combinations whose fault-free run succeeds; for each: the reader fails and keeps failing after k bytes for EVERY k in 0..=len under rotating schedules [all, one, random]; the writer fails after accepting k bytes for EVERY k below the fault-free length in two styles (short accept then fail / reject the crossing write), from slice and reader input; 4 short-write patterns; flush faults; distinct non-trivial = distinct (input, from, to) combinations", n);
+    ev::finish(
+        Finish { ctx, level: "fault_enumeration", rule, assumptions: vec!["for YAML output one trailing '---' header after the last complete document is allowed (the writer emits it before pulling the next document)".into(), "writer-fault error text is judged in C11, not here".into()], extra: serde_json::Map::new(), exhaustive: false, min_distinct: 200, must_reach: vec![("reader_faults_delivered".into(), 10000), ("writer_fault_points".into(), 10000), ("short_write_runs".into(), 500), ("flush_fault_runs".into(), 4)] },
+        acc,
+    )
+}
+
+pub fn replay(v: &Value) -> i32 {
+    let c = &v["case"];
+    let kind = c["fault"].as_str().unwrap_or("");
+    if kind.starts_with("flush") {
+        let mut acc = Acc::default();
+        for to in ALL {
+            flush_fault(to, &mut acc);
+        }
+        return if acc.vio_count > 0 { println!("VIOLATION property=C12 replay=<this file> (reproduced)"); 1 } else { println!("not reproduced"); 0 };
+    }
+    let (Some(input), Some(from), Some(to), Some(k)) = (c["input_hex"].as_str().and_then(unhex), c["from"].as_str().and_then(fmts::parse_from), c["to"].as_str().and_then(Fmt::parse), c["k"].as_u64()) else {
+        println!("bad replay case");
+        return 2;
+    };
+    let clean = run_slice(&input, from, to);
+    let detail = c["detail"].as_str().unwrap_or("");
+    let mut acc = Acc::default();
+    match kind {
+        "reader" => reader_fault(&input, from, to, k as usize, &Sched::parse(detail).unwrap_or(Sched::All), &clean.out, &mut acc),
+        "writer" => {
+            let style = if detail.starts_with("Reject") { FaultStyle::RejectCrossing } else { FaultStyle::ShortThenFail };
+            let sched = detail.split('|').nth(1).and_then(Sched::parse);
+            writer_fault(&input, from, to, k as usize, style, sched.as_ref(), &clean.out, &mut acc)
+        }
+        _ => short_writes(&input, from, to, detail.parse().unwrap_or(0), k as usize, &clean.out, &mut acc),
+    }
+    println!("input [{}] from={} to={} fault={} k={} ({})", preview(&input, 300), fmts::from_name(from), to.name(), kind, k, detail);
+    if acc.vio_count > 0 {
+        println!("VIOLATION property=C12 replay=<this file> (reproduced): {}", acc.violations[0].observed);
+        1
+    } else {
+        println!("not reproduced");
+        0
+    }
 }
